@@ -20,12 +20,15 @@ def mutants():
            "mutant must still pass: `555 passed`, the 3 `failed` are the network-bound sample-CUR tests of the baseline), runs the",
            "property's quick check against the copy and deletes the copy. `exit=1` = the check reported a VIOLATION.", "",
            "| property | mutant | repository suite | check | violation kinds |", "|---|---|---|---|---|"]
-    caught = 0
+    caught = valid = 0
     for pid, name, rc, tests, kinds in rows:
-        caught += rc == "1"
+        ok_suite = ("555 passed" in tests and "3 failed" in tests) or not tests.strip() or tests.strip() == "-"
+        valid += ok_suite
+        caught += (rc == "1") and ok_suite
         k = " ".join(sorted(set(x.replace("kind=", "") for x in kinds.split())))
-        out.append("| %s | %s | %s | %s | %s |" % (pid, name, tests.strip() or "-", "caught" if rc == "1" else "**missed**", k[:160]))
-    out += ["", "%d of %d mutants caught." % (caught, len(rows)), ""]
+        suite = "passes (555 passed)" if ok_suite else "KILLED BY THE SUITE (%s) - not counted" % tests.strip()
+        out.append("| %s | %s | %s | %s | %s |" % (pid, name, suite, "caught" if rc == "1" else "**missed**", k[:160]))
+    out += ["", "%d mutants; %d pass the repository's own suite; %d of those are caught by the property's quick check." % (len(rows), valid, caught), ""]
     open("mutants/REPORT.md", "w").write("\n".join(out))
     return caught, len(rows)
 
